@@ -9,6 +9,7 @@ use std::time::Instant;
 pub mod c05;
 pub mod c13;
 pub mod c14;
+pub mod c15;
 pub mod c18;
 pub mod c20;
 
@@ -74,13 +75,14 @@ pub fn get(id: &str, tier: Tier) -> Option<Check> {
         "C05" => c05::check(tier),
         "C13" => c13::check(tier),
         "C14" => c14::check(tier),
+        "C15" => c15::check(tier),
         "C18" => c18::check(tier),
         "C20" => c20::check(tier),
         _ => return None,
     })
 }
 
-pub const ALL: &[&str] = &["C05", "C13", "C14", "C18", "C20"];
+pub const ALL: &[&str] = &["C05", "C13", "C14", "C15", "C18", "C20"];
 
 /// Stream-local seed for scenario `idx`.
 pub fn sseed(ctx: &Ctx, stream: &str, idx: u64) -> u64 {
